@@ -1,15 +1,13 @@
 use ::unimock::MockFn as _;
-macro_rules! stamp { ($($item:tt)*) => { #[::entrait::entrait(pub T, mock_api = Mk, unimock, export, no_deps)] $($item)* } }
-stamp! {
-fn f1(a1: i32) -> String {
+macro_rules! stamp { ([$($params:tt)*] $body:block) => { #[::entrait::entrait(pub T, mock_api = Mk, unimock, export, no_deps)] fn f1($($params)*) -> String $body } }
+stamp! { [a1: i32] {
     let __args: String = String::new() + &::vt::js(&format!("{:?}", a1));
     ::vt::emit("enter", &format!("\"f\":\"c000130::f1\",\"deps\":{},\"args\":[{}]", ::vt::js(&String::from("-")), __args));
     
     let __val = format!("c000130::f1({})", __args);
     ::vt::emit("exit", &format!("\"f\":\"c000130::f1\",\"val\":{}", ::vt::js(&__val)));
     __val
-}
-}
+} }
 
 pub fn run() {
     { ::vt::emit("scenario", "\"case\":\"c000130\",\"sc\":1");
